@@ -39,6 +39,8 @@ const (
 	ImpReexportStar
 	ImpReexportNamed
 	ImpUnused // imported but never referenced (tree shaking / sideEffects)
+	ImpDynamicList // import() inside one array literal shared by all such imports of the module:
+	// reordering two of them changes nothing but which chunk is referenced where
 	NumImpStyles
 )
 
@@ -90,6 +92,7 @@ type Project struct {
 	Twin      int               // index of a module that shares its base name with another one (0 = none)
 	Extra     map[string]string // additional raw files (relative path -> content)
 	ExtraDel  map[string]bool
+	ExtraEntries []string // raw files (keys of Extra) that are entry points too
 }
 
 type TSConfig struct {
@@ -105,7 +108,9 @@ type TSConfig struct {
 
 // import styles, weighted: dynamic imports and named imports are the interesting ones
 // (code splitting, cross-chunk imports), index 0 is the simplest
-var styleWeights = []int{ImpNamed, ImpDynamic, ImpNamed, ImpDynamic, ImpDefault, ImpStar, ImpDynamic, ImpRequire, ImpSideEffect, ImpReexportStar, ImpReexportNamed, ImpUnused, ImpNamed}
+var styleWeights = []int{ImpNamed, ImpDynamic, ImpNamed, ImpDynamic, ImpDefault, ImpStar, ImpDynamic, ImpRequire, ImpSideEffect, ImpReexportStar, ImpReexportNamed, ImpUnused, ImpNamed, ImpDynamicList, ImpDynamicList}
+
+func isDynamic(style int) bool { return style == ImpDynamic || style == ImpDynamicList }
 
 func (m *Module) marker() string { return fmt.Sprintf("M%d@%d", m.ID, m.Version) }
 
@@ -405,6 +410,7 @@ func (p *Project) RenderModule(m *Module) string {
 		fmt.Fprintf(&sb, "/*! legal comment of module %d */\n", m.ID)
 	}
 	var used []string
+	var lazyList []string
 	for _, im := range m.Imports {
 		var t *Module
 		spec := p.spec(m, im)
@@ -457,6 +463,8 @@ func (p *Project) RenderModule(m *Module) string {
 		case im.Style == ImpStar:
 			fmt.Fprintf(&sb, "import * as ns%d from %s;\n", id, q)
 			used = append(used, fmt.Sprintf("ns%d.%s", id, v))
+		case im.Style == ImpDynamicList:
+			lazyList = append(lazyList, fmt.Sprintf("() => import(%s)", q))
 		case im.Style == ImpDynamic && cjs:
 			fmt.Fprintf(&sb, "exports.lazy%d_%d = () => import(%s);\n", m.ID, id, q)
 		case im.Style == ImpDynamic:
@@ -472,6 +480,13 @@ func (p *Project) RenderModule(m *Module) string {
 			fmt.Fprintf(&sb, "export { %s as re%d_%d } from %s;\n", v, m.ID, id, q)
 		case im.Style == ImpUnused:
 			fmt.Fprintf(&sb, "import { %s as unused%d } from %s;\n", v, id, q)
+		}
+	}
+	if len(lazyList) > 0 {
+		if cjs {
+			fmt.Fprintf(&sb, "exports.lazyAll%d = [%s];\n", m.ID, strings.Join(lazyList, ", "))
+		} else {
+			fmt.Fprintf(&sb, "export const lazyAll%d = [%s];\n", m.ID, strings.Join(lazyList, ", "))
 		}
 	}
 	if ts && m.Feat&FeatTypes != 0 {
@@ -680,6 +695,7 @@ func (p *Project) Clone() *Project {
 		c.Pkgs = append(c.Pkgs, &kk)
 	}
 	c.Entries = append([]int(nil), p.Entries...)
+	c.ExtraEntries = append([]string(nil), p.ExtraEntries...)
 	if p.TS != nil {
 		t := *p.TS
 		c.TS = &t
@@ -733,6 +749,7 @@ func (p *Project) EntryPaths() []string {
 	for _, e := range p.Entries {
 		out = append(out, p.Mods[e].Path)
 	}
+	out = append(out, p.ExtraEntries...)
 	return out
 }
 
